@@ -25,14 +25,14 @@ var ttmlAttrValues = map[string][]string{
 	"direction":       {"ltr", "rtl"},
 	"display":         {"auto", "none"},
 	"displayAlign":    {"before", "center", "after"},
-	"extent":          {"80% 10%", "560px 62px", "auto"},
+	"extent":          {"80% 10%", "560px 62px", "auto", "80%  10%", " 560px 62px", "80%\t10%"},
 	"fontFamily":      {"proportionalSansSerif", "Arial, sans-serif", "monospace"},
 	"fontSize":        {"100%", "18px", "1c 2c"},
 	"fontStyle":       {"normal", "italic", "oblique"},
 	"fontWeight":      {"normal", "bold"},
 	"lineHeight":      {"normal", "125%"},
 	"opacity":         {"1", "0.5"},
-	"origin":          {"10% 80%", "0px 0px", "auto"},
+	"origin":          {"10% 80%", "0px 0px", "auto", "10%   80%", "0px 0px "},
 	"overflow":        {"visible", "hidden"},
 	"padding":         {"0px", "1c 2c", "2px 4px 2px 4px"},
 	"showBackground":  {"always", "whenActive"},
